@@ -76,7 +76,7 @@ def _c01(seed, quick):
     n, b = (140, 40) if quick else (2000, 400)
     m, mb = (25, 40) if quick else (500, 400)
     return {
-        "shards": seq_shards("C01", seed, n, b, shards=8) + conc_shards("C01", seed, "mixed", m, mb, shards=8),
+        "shards": seq_shards("C01", seed, n, b, shards=7) + conc_shards("C01", seed, "mixed", m, mb, shards=7) + conc_shards("C01", seed, "update-sweep", 120 if quick else 3000, mb, shards=2),
         "rule": SEQ_RULE + " " + CONC_RULE,
         "explanation": "Online invariant: every change of the total weight emits WeightChanged{site,new_total,max} under the total's own write lock "
                        "(add / update / delete); the recorder asserts 0 <= new_total <= max at that instant. Two observer threads spin on the public "
@@ -84,7 +84,7 @@ def _c01(seed, quick):
                        "max-1, max, max+1) and C-mode mixed runs under pressure with expiry/sweeps racing the worker; half of the concurrent cases give every "
                        "write of a key the same explicit weight, so the bound is also checked where the recorded UpdateWeight defect cannot play.",
         "assumptions": COMMON_ASSUMPTIONS + ["observation stops before shutdown(): clear() may race a worker delete"],
-        "require": ["weight_change_events", "observer_samples", "evictions"],
+        "require": ["weight_change_events", "observer_samples", "evictions", "forced_long_delays_hit", "sweeps_overlapping_worker_commands"],
     }
 
 
@@ -112,12 +112,13 @@ def _c05(seed, quick):
     m, mb = (25, 40) if quick else (500, 400)
     n, b = (100, 40) if quick else (2000, 400)
     return {
-        "shards": conc_shards("C05", seed, "same-key", 24 if quick else 400, mb, shards=4) + conc_shards("C05", seed, "mixed", m, mb, shards=8) + seq_shards("C05", seed, n, b, shards=4),
+        "shards": conc_shards("C05", seed, "same-key", 24 if quick else 400, mb, shards=3) + conc_shards("C05", seed, "update-sweep", 120 if quick else 3000, mb, shards=3) + conc_shards("C05", seed, "mixed", m, mb, shards=6) + seq_shards("C05", seed, n, b, shards=4),
         "rule": CONC_RULE + " " + SEQ_RULE,
         "explanation": "At quiescent points (every command acknowledged, two sweeps completed since the clock stopped) the snapshot must satisfy: total = sum of "
                        "charged weights, charged ids = ids of held entries, and after deleting every key total_weight_used() = 0. Directed races: two puts of one "
                        "key that both pass the existence check before either is applied (two threads with a gate after the check; one thread with the worker "
-                       "held), put racing upsert, delete racing put; plus free-running mixed histories with un-awaited writes, eviction and sweeps.",
+                       "held), put racing upsert, delete racing put; worker-vs-sweeper races on the same keys (TTL keys updated / deleted / re-put while the clock crosses their expiry, with one "
+                       "critical section or gap stretched by a long bounded delay so that the other thread's step lands inside it); plus free-running mixed histories with un-awaited writes, eviction and sweeps.",
         "assumptions": COMMON_ASSUMPTIONS,
         "require": ["quiescent_points_checked", "races_where_both_writes_passed_the_existence_check_before_the_first_was_applied", "delete_everything_checks"],
     }
